@@ -97,6 +97,31 @@ def classify(grammar, cfg, text, r, i):
     return diff.attribute(grammar, cfg, text, i)
 
 
+def run_texts(grammar, cfg, texts, u, family, label=""):
+    """generic differential loop used by C20 / C21 / C22: explicit list of rendered inputs"""
+    gtext = refpeg.to_text(grammar)
+    interp, mm, err = diff.compile_both(grammar, cfg)
+    gid = [family, gtext, json.dumps(cfg, sort_keys=True)]
+    if err is not None:
+        u.case(gid, nontrivial=False)
+        u.fail(gid, {"grammar": grammar, "cfg": cfg, "input": None}, sig="compile:" + err[:50],
+               what="grammar of the fragment refused: %s :: %s" % (gtext.replace("\n", " "), err))
+        return None, None
+    u.count("grammars x configs")
+    for text in texts:
+        agree, r, i = diff.compare(interp, mm, text)
+        cid = gid + [text]
+        u.case(cid, nontrivial=(r[0] == "accept"),
+               sample={"grammar": gtext, "cfg": cfg, "input": text, "reference": r, "implementation": i} if r[0] == "accept" and len(text) > 2 else None)
+        u.count("ref:" + r[0])
+        if not agree:
+            u.fail(cid, {"grammar": grammar, "cfg": cfg, "input": text}, key=classify(grammar, cfg, text, r, i),
+                   sig="%s %s ref=%s impl=%s" % (family, label or signature(grammar, r, i), r[0], i[0]),
+                   what="%s | cfg=%s | input=%r | reference=%s | implementation=%s" % (
+                       gtext.replace("\n", " "), cfg, text, json.dumps(r)[:200], json.dumps(i)[:200]))
+    return interp, mm
+
+
 def work(arg):
     family, tier, L, bodies = arg
     u = Unit()
